@@ -143,9 +143,34 @@ def boundary_cases(ctx, n):
     return out
 
 
+def big_frame_cases(ctx):
+    """frames around and above 65512 bytes (wire length 65536 and more) between small ones, each big packet also stored
+    and emitted twice: time must still advance strictly from statement to statement, and the two emissions of the same
+    packet add the same gap"""
+    import os
+    from props.c02 import fix_paths
+    r = ctx.rng
+    out = []
+    sizes = [65469, 65470, 65471, 65500, 65507] if ctx.thorough else [65470, r.choice([65469, 65471, 65500, 65507])]
+    for i, n in enumerate(sizes):
+        fn = "c12big%d.bin" % i
+        small = lambda t: gen.Do(gen.Call("ipv4::udp::unicast", gen.SOCK("1.2.3.4:1"), gen.SOCK("1.2.3.5:2"), _x=[gen.STR(t)]))
+        big = gen.Call("ipv4::udp::unicast", gen.SOCK("1.2.3.4:1"), gen.SOCK("1.2.3.5:2"), _x=[gen.Call("io::file", gen.STR("@WD@/" + fn))])
+        c = Case()
+        c.name, c.files, c.text = "big%d" % i, {fn: bytes(r.getrandbits(8) for _ in range(n))}, None
+        c.stmts = [gen.Import("ipv4"), gen.Import("io"), small(b"before"), gen.Let("bp", big), gen.Do(gen.Ref("bp")), small(b"between"),
+                   gen.Do(gen.Ref("bp")), small(b"after")]
+        c.meta = [{"kind": "import", "npk": 0}, {"kind": "import", "npk": 0}, {"kind": "expr", "npk": 1}, {"kind": "let", "npk": 0},
+                  {"kind": "expr", "npk": 1}, {"kind": "expr", "npk": 1}, {"kind": "expr", "npk": 1}, {"kind": "expr", "npk": 1}]
+        c.gen = {"big": True, "base": None}
+        out.append(c)
+    fix_paths(out, common.BUILD + "/work/c12-%d" % os.getpid())
+    return out
+
+
 def run(ctx):
     n = 400 if ctx.thorough else 60
-    cases = make_cases(ctx, n) + boundary_cases(ctx, 12 if ctx.thorough else 4)
+    cases = make_cases(ctx, n) + boundary_cases(ctx, 12 if ctx.thorough else 4) + big_frame_cases(ctx)
     diff.run_both(ctx, "c12", cases)
     byname = {c.name: c for c in cases}
     for c in cases:
@@ -161,6 +186,12 @@ def run(ctx):
             base = None
         before = len(ctx.violations)
         oracle(ctx, c, base)
+        if (c.gen or {}).get("big") and len(ctx.violations) == before:
+            okb, rb = common.pcap_records(c.impl.pcap)
+            tb = [x[0] * 10**9 + x[1] for x in rb]
+            if len(tb) == 5 and (tb[1] - tb[0]) != (tb[3] - tb[2]):
+                ctx.fail("gap-not-local", "the same stored %d-byte packet adds %d ns the first time and %d ns the second"
+                         % (len(rb[1][4]), tb[1] - tb[0], tb[3] - tb[2]), diff.replay_of(c))
         oki, ti = times(c.impl.pcap)
         okm, tm = times(c.model["pcap"])
         if ti != tm and len(ctx.violations) == before:
